@@ -60,7 +60,7 @@ def run(tier):
     chk = Check(PROP, tier)
     lean_ok = lean_gate(chk, THEOREMS)
     quick = tier == "quick"
-    n_gen = 14 if quick else 260
+    n_gen = 22 if quick else 260
     nmax = 5
     cases = pipeline.load_corpus(PROP) + pipeline.generate_cases(
         n_gen, f"{PROP}-{tier}", families=["branchy", "finite", "choice", "guarded", "poly", "simult", "param", "cont"])
